@@ -34,19 +34,19 @@ Notation prs := (parse g input orc false).
 Hypothesis Htab : asg_table_okb g mm = true.
 
 (* a single-valued attribute collects at most one value *)
-Lemma tv_le1 an kids : wgt g mm attr_id conv0 (attr_id an) kids <= 1 -> length (tv an kids) <= 1.
+Lemma tv_le1 ma kids : wgt g mm attr_id conv0 (attr_id (a_name ma)) kids <= 1 -> length (tv ma kids) <= 1.
 Proof.
   induction kids as [|k kids IH]; intro H; [cbn; lia|].
-  rewrite wgt_cons in H. cbn [tvals flat_map]. fold (tv an kids). rewrite app_length.
+  rewrite wgt_cons in H. cbn [tvals flat_map]. fold (tv ma kids). rewrite app_length.
   destruct k as [|nid ks]; [cbn [kid_vals length]; apply IH; lia|]. cbn [kid_vals].
   destruct (info mm nid) as [a o| | |] eqn:Ei; try (cbn [length]; apply IH; lia).
-  destruct (str_eqb an a) eqn:E; [|cbn [length]; apply IH; lia].
+  destruct (str_eqb (a_name ma) a) eqn:E; [|cbn [length]; apply IH; lia].
   apply str_eqb_eq in E. subst a.
-  destruct (asg_kid_event g mm attr_id conv0 Htab nid ks an o Ei) as [op [vals [Hfit Hev]]].
-  assert (Hk : wgt g mm attr_id conv0 (attr_id an) [NT nid ks] = match op with MultBase.OpPlain | MultBase.OpBool => 1 | _ => 2 end).
+  destruct (asg_kid_event g mm attr_id conv0 Htab nid ks (a_name ma) o Ei) as [op [vals [Hfit Hev]]].
+  assert (Hk : wgt g mm attr_id conv0 (attr_id (a_name ma)) [NT nid ks] = match op with MultBase.OpPlain | MultBase.OpBool => 1 | _ => 2 end).
   { unfold wgt. cbn [flat_map]. rewrite app_nil_r, Hev. unfold Mult.weight, Mult.ev_weight. cbn. rewrite Nat.eqb_refl.
     destruct op; reflexivity. }
-  assert (Hrest : tv an kids = []) by (apply (wgt0_tvals g mm input grp auto use_grp attr_id conv0 Htab); destruct op; lia).
+  assert (Hrest : tv ma kids = []) by (apply (wgt0_tvals g mm input grp auto use_grp attr_id conv0 Htab); destruct op; lia).
   rewrite Hrest. cbn [length]. rewrite Nat.add_0_r.
   destruct o; try (destruct op; try contradiction; lia).
   - destruct ks; cbn; lia.
@@ -59,12 +59,12 @@ Theorem parsed_object_values b nid fuel psq s kids s' cls attrs top cls' p e val
   prs fuel nid psq s = Ok (RTree (NT nid kids)) s' ->
   info mm nid = IRule RCommon cls attrs ->
   mult_agreesb attr_id b attrs = true ->
-  forallb (kid_okb mm) kids = true ->
+  forallb (asg_placed mm true) kids = true ->
   pn (NT nid kids) top = BOk (VObj cls' p e vals, top') ->
   forall ma, find_attr (a_name ma) attrs = Some ma ->
-    get_val (a_name ma) vals = Some (expected_val auto ma (tv (a_name ma) kids))
+    get_val (a_name ma) vals = Some (expected_val auto ma (tv ma kids))
     /\ (is_many (a_mult ma) = true <-> 2 <= Mult.maxcount (attr_id (a_name ma)) b)
-    /\ (is_many (a_mult ma) = false -> length (tv (a_name ma) kids) <= 1).
+    /\ (is_many (a_mult ma) = false -> length (tv ma kids) <= 1).
 Proof.
   intros Hd Hg Hp Hi Hmu Hok Hb.
   pose proof (MultPegProofs.peg_result_is_trace g mm attr_id conv0 input orc b nid fuel psq s _ s' Hd Hp) as Hem.
@@ -100,10 +100,10 @@ Theorem parsed_object_no_mult_assign b nid fuel psq s kids s' cls attrs top :
   prs fuel nid psq s = Ok (RTree (NT nid kids)) s' ->
   info mm nid = IRule RCommon cls attrs ->
   mult_agreesb attr_id b attrs = true ->
-  forallb (kid_okb mm) kids = true ->
+  forallb (asg_placed mm true) kids = true ->
   pn (NT nid kids) top = BErr ESem ->
   (exists k c', In k kids /\ pn k (Some c') = BErr ESem /\
-     (pureb mm k = true \/ exists n' ks a o k0 c'', k = NT n' ks /\ info mm n' = IAsgn a o /\ In k0 ks /\ pn k0 (Some c'') = BErr ESem))
+     (not_asg mm k = true \/ exists n' ks a o k0 c'', k = NT n' ks /\ info mm n' = IAsgn a o /\ In k0 ks /\ pn k0 (Some c'') = BErr ESem))
   \/ (exists c1, each_loop pn kids (Some (mkCur cls attrs (tpos (NT nid kids)) (tend (NT nid kids)) (init_attrs auto attrs))) = BOk (Some c1)
                  /\ name_ok (c_vals c1) = false).
 Proof.
@@ -133,8 +133,6 @@ Proof.
 Qed.
 
 (* ---------------------------------------------------------------- whole run *)
-Definition obj_tree_okb (t : tree) : bool :=
-  match t with NT _ ks => forallb (kid_okb mm) ks | T _ _ _ _ => true end.
 
 (* the parser model's top: Sequence(root rule, EOF) *)
 Definition top_okb (nid : nat) : bool :=
@@ -191,13 +189,13 @@ Theorem run_object_values_nomemo b nid cfg fuel r cls attrs cls' p e vals :
   MultPeg.den g mm attr_id true b nid = true -> Mult.grammar_ok b = true -> top_okb nid = true ->
   info mm nid = IRule RCommon cls attrs -> mult_agreesb attr_id b attrs = true ->
   run g cfg orc false fuel input = Parsed r ->
-  (forall tp t rest, r = RTree (NT tp (t :: rest)) -> obj_tree_okb t = true) ->
+  (forall tp t rest, r = RTree (NT tp (t :: rest)) -> asg_placed mm false t = true) ->
   build g mm input grp auto use_grp r = BOk (VObj cls' p e vals) ->
   exists kids tp rest, r = RTree (NT tp (NT nid kids :: rest)) /\
   forall ma, find_attr (a_name ma) attrs = Some ma ->
-    get_val (a_name ma) vals = Some (expected_val auto ma (tv (a_name ma) kids))
+    get_val (a_name ma) vals = Some (expected_val auto ma (tv ma kids))
     /\ (is_many (a_mult ma) = true <-> 2 <= Mult.maxcount (attr_id (a_name ma)) b)
-    /\ (is_many (a_mult ma) = false -> length (tv (a_name ma) kids) <= 1).
+    /\ (is_many (a_mult ma) = false -> length (tv ma kids) <= 1).
 Proof.
   intros Hd Hg Htop Hi Hmu Hrun Hok Hb.
   unfold build in Hb. destruct r as [|[|tp [|t rest]]|]; try discriminate.
@@ -231,7 +229,7 @@ Proof.
     subst t. exists ks, tp, rest. split; [reflexivity|].
     destruct (pn (NT nid ks) None) as [[v top']|er] eqn:Epn; [|discriminate]. inversion Hb; subst v.
     eapply parsed_object_values; try eassumption.
-    exact (Hok tp (NT nid ks) rest eq_refl).
+    pose proof (Hok tp (NT nid ks) rest eq_refl) as Hpl. cbn [asg_placed] in Hpl. unfold info in Hi. rewrite Hi in Hpl. exact Hpl.
   - (* the rule matched nothing: the first child of the top NonTerminal is not the rule's tree *)
     exfalso. cbn [app] in Hbody.
     destruct H2 as [-> | [n2 [p2 [l2 [sp2 ->]]]]]; cbn in Hbody; inversion Hbody; subst rb;
@@ -246,13 +244,13 @@ Theorem run_object_values memo b nid cfg fuel r cls attrs cls' p e vals :
   MultPeg.den g mm attr_id true b nid = true -> Mult.grammar_ok b = true -> top_okb nid = true ->
   info mm nid = IRule RCommon cls attrs -> mult_agreesb attr_id b attrs = true ->
   run g cfg orc memo fuel input = Parsed r ->
-  (forall tp t rest, r = RTree (NT tp (t :: rest)) -> obj_tree_okb t = true) ->
+  (forall tp t rest, r = RTree (NT tp (t :: rest)) -> asg_placed mm false t = true) ->
   build g mm input grp auto use_grp r = BOk (VObj cls' p e vals) ->
   exists kids tp rest, r = RTree (NT tp (NT nid kids :: rest)) /\
   forall ma, find_attr (a_name ma) attrs = Some ma ->
-    get_val (a_name ma) vals = Some (expected_val auto ma (tv (a_name ma) kids))
+    get_val (a_name ma) vals = Some (expected_val auto ma (tv ma kids))
     /\ (is_many (a_mult ma) = true <-> 2 <= Mult.maxcount (attr_id (a_name ma)) b)
-    /\ (is_many (a_mult ma) = false -> length (tv (a_name ma) kids) <= 1).
+    /\ (is_many (a_mult ma) = false -> length (tv ma kids) <= 1).
 Proof.
   intros Hmemo Hd Hg Htop Hi Hmu Hrun Hok Hb.
   destruct memo.
